@@ -56,6 +56,7 @@ m.update({"seeded_id":"$id","confirmed":{"patch_applies":"$res_apply","baseline_
 json.dump(m,open('/verif/seeded/$id/meta.json','w'),indent=1)
 print("$id", m["property"], "baseline_ok=%s"%m["confirmed"]["baseline_tests_pass_with_change"], "demo_with=[%s]"%m["confirmed"]["demo_with_change"], "demo_without=[%s]"%m["confirmed"]["demo_without_change"], "DETECTED_BY=", m["detected_by"])
 PY
+cp /verif/seeded/$id/replays-tmp/harness-error-*.log /verif/seeded/$id/ 2>/dev/null
 rm -rf /verif/seeded/$id/replays-tmp
 git -C /repo worktree remove --force $wt
 rm -rf /tmp/eval-$id.evidence
